@@ -66,7 +66,29 @@ def local_spectrum(u):
     u = np.asarray(u, dtype=complex)
     us = u / np.linalg.det(u) ** 0.25
     ub = MAGIC_H @ us @ MAGIC
-    return np.linalg.eigvals(ub.T @ ub)
+    return normal_eigvals(ub.T @ ub)
+
+
+def normal_eigvals(m):
+    """Eigenvalues of a normal matrix via Hermitian eigensolvers only.
+
+    LAPACK's general QR iteration (zgeev / zgees) occasionally fails to converge on nearly scalar unitaries (seen on
+    i*I + O(1e-17)); eigh always converges.  m = A + iB with commuting Hermitian A, B; the eigenvectors of
+    A cos(phi) + B sin(phi) diagonalise m unless two eigen-phases are mirror images about phi, so two fixed angles are
+    tried and the one with the smaller residual is kept."""
+    m = np.asarray(m, dtype=complex)
+    a = (m + m.conj().T) / 2
+    b = (m - m.conj().T) / 2j
+    best, best_res = None, float("inf")
+    for phi in (0.7312, 2.2195, -1.0471):
+        _, v = np.linalg.eigh(math.cos(phi) * a + math.sin(phi) * b)
+        lam = np.einsum("ij,ij->j", v.conj(), m @ v)
+        res = float(np.abs(m @ v - v * lam).max())
+        if res < best_res:
+            best, best_res = lam, res
+        if res < 1e-13:
+            break
+    return best
 
 
 def spectrum_of_coordinates(x, y, z):
